@@ -1,12 +1,12 @@
 package c15
 
 import (
-	"runtime"
-	"math/bits"
-	"os"
 	"encoding/binary"
 	"encoding/hex"
 	"fmt"
+	"math/bits"
+	"os"
+	"runtime"
 	"strings"
 	"testing"
 
@@ -620,6 +620,9 @@ func runOne(t *rapid.T, fn *wasiabi.Func) {
 	applyExclusions(c, info)
 	evid.Journal(c)
 	r := w.runCall(c)
+	if r.Harness != "" {
+		t.Fatalf("harness: %s", r.Harness)
+	}
 	if r.Msg != "" {
 		evid.Fail(t, c, "%s", r.Msg)
 	}
@@ -658,9 +661,22 @@ func runOne(t *rapid.T, fn *wasiabi.Func) {
 		labels = append(labels, "info:success-with-result-pointer-outside-memory:"+fn.Name)
 	}
 	evid.Case(c.key(), nontrivial, labels...)
-	if nontrivial && r.MemChanged && nb >= 2 {
-		evid.Sample("case", 3, map[string]any{"case": c, "errno": r.Errno, "alloc": r.Alloc})
+	if nontrivial && sampledFn(fn.Name) {
+		evid.Sample("case:"+fn.Name, 1, map[string]any{"case": c, "errno": r.Errno, "outcome": r.Out.String(), "alloc_bytes": r.Alloc,
+			"memory_changed": r.MemChanged, "boundary_choices": nb})
 	}
+}
+
+// sampledFn spreads the few written-out samples of the evidence file over different functions:
+// every shard keeps one non-trivial case of four functions of its own.
+func sampledFn(name string) bool {
+	shard, _ := evid.Shard()
+	for k := 0; k < 4; k++ {
+		if wasiabi.Table[(shard*11+k*13+5)%len(wasiabi.Table)].Name == name {
+			return true
+		}
+	}
+	return false
 }
 
 func TestWasiArgs(t *testing.T) {
@@ -670,7 +686,7 @@ func TestWasiArgs(t *testing.T) {
 	knownClasses(t) // decide (and report) the known classes before generating
 	for i := range wasiabi.Table {
 		fn := &wasiabi.Table[i]
-		evid.Check(t, fn.Name, evid.Scale(2000, 20000), func(rt *rapid.T) { runOne(rt, fn) })
+		evid.Check(t, fn.Name, evid.Scale(1000, 20000), func(rt *rapid.T) { runOne(rt, fn) })
 		if debugLabels {
 			var ms runtime.MemStats
 			runtime.ReadMemStats(&ms)
